@@ -1242,7 +1242,8 @@ fn sgr_face(data: &[u8]) -> FaceModify {
         let args_empty = args.size_hint().0 == 0;
         let mut sgr_color_thunk = || {
             if args_empty {
-                sgr_color(&mut groups)
+                // `38;2;r;g;b`: selector and three components, never read into the next parameter
+                sgr_color(groups.by_ref().take(4))
             } else {
                 sgr_color(&mut args)
             }
